@@ -583,7 +583,7 @@ func (e *Engine) mk(vd *VD, addr atree.Address, limit uint32, depth int) (atree.
 	case "arr":
 		// the type information of one array in seven says "composite" (the library puts no restriction on it):
 		// it then shares its encoded type with composite maps of the same number in the slab's type table
-		n := &Node{ID: e.nextNode, Addr: addr, TI: TI{N: vd.N % 48, Comp: vd.N%7 == 3}}
+		n := &Node{ID: e.nextNode, Addr: addr, TI: TI{N: e.typeNum(vd.N, 8), Comp: vd.N%7 == 3}}
 		e.nextNode++
 		a, err := atree.NewArray(e.St, addr, n.TI)
 		if err != nil {
@@ -608,7 +608,7 @@ func (e *Engine) mk(vd *VD, addr atree.Address, limit uint32, depth int) (atree.
 		return a, n, nil
 	case "barr":
 		// an array built with the bulk constructor from a stream of mixed sizes (then used like any other value)
-		n := &Node{ID: e.nextNode, Addr: addr, TI: TI{N: vd.N % 48}}
+		n := &Node{ID: e.nextNode, Addr: addr, TI: TI{N: e.typeNum(vd.N, 8)}}
 		e.nextNode++
 		i := 0
 		cls := []int{0, 8, 3, 4, 8, 7, 8, 2, 8, 8, 8, 3}
@@ -650,7 +650,7 @@ func (e *Engine) mk(vd *VD, addr atree.Address, limit uint32, depth int) (atree.
 			e.Stats.Add("excluded_known_F4", 1)
 			return e.mk(&c, addr, limit, depth)
 		}
-		n := &Node{ID: e.nextNode, Addr: addr, IsMap: true, TI: TI{N: vd.N % 48, Comp: vd.K == "cmap"}, Ents: map[string]*Ent{}, Ins: map[string]int{}}
+		n := &Node{ID: e.nextNode, Addr: addr, IsMap: true, TI: TI{N: e.typeNum(vd.N, 4), Comp: vd.K == "cmap"}, Ents: map[string]*Ent{}, Ins: map[string]int{}}
 		e.nextNode++
 		m, err := atree.NewMap(e.St, addr, atree.NewDefaultDigesterBuilder(), n.TI)
 		if err != nil {
@@ -706,9 +706,9 @@ func (e *Engine) mk(vd *VD, addr atree.Address, limit uint32, depth int) (atree.
 	return nil, nil, fmt.Errorf("verif: bad value kind %q", vd.K)
 }
 
-// excludeF4 reports whether creating one more nested plain map could reach known finding F4:
-// only slabs of at least 3784 bytes can hold 257 inlined maps (22 bytes each at least).
-func (e *Engine) excludeF4() bool {
+// f4Active reports whether this case could reach known finding F4 (more than 256 inlined containers with distinct
+// extra data in one slab): only slabs of at least 3784 bytes can hold 257 inlined maps (22 bytes each at least) ...
+func (e *Engine) f4Active() bool {
 	// ... or, at any slab size, an external collision group (which has no size limit) must hold them
 	collisions := e.Cfg.HipGroups > 0
 	for _, r := range e.Cfg.Roots {
@@ -717,11 +717,26 @@ func (e *Engine) excludeF4() bool {
 	for _, r := range e.Roots {
 		collisions = collisions || r.Dig != nil
 	}
-	if e.Cfg.AllowF4 || (e.Cfg.Slab < 3700 && !collisions) {
+	return !e.Cfg.AllowF4 && (e.Cfg.Slab >= 3700 || collisions)
+}
+
+// excludeF4 reports whether creating one more nested plain map (each has its own extra data: its seed) has to be
+// avoided.  In cases where F4 is reachable the kinds of extra data are kept far below 256 by construction: at most 60
+// plain maps, 16 kinds of arrays and 56 kinds of composite maps (see typeNum), leaving room for every later type change.
+func (e *Engine) excludeF4() bool {
+	if !e.f4Active() {
 		return false
 	}
 	e.plainMaps++
-	return e.plainMaps > 200
+	return e.plainMaps > 60
+}
+
+// typeNum reduces a generated type number: 48 types normally (type tables with more than 24 entries), mod kinds when F4 is reachable.
+func (e *Engine) typeNum(n uint64, kinds uint64) uint64 {
+	if e.f4Active() {
+		return n % kinds
+	}
+	return n % 48
 }
 
 // elemVD derives the i-th element recipe of a container being built.
